@@ -667,9 +667,19 @@ func (s *state) evalExpr(exp parse.Expr) (v Value, e error) {
 			return CoerceNumber(left) < CoerceNumber(right), nil
 		case parse.OpBinaryRange:
 			l, r := CoerceNumber(left), CoerceNumber(right)
-			res := make([]float64, uint(math.Ceil(r-l))+1)
-			for i, k := 0, l; k <= r; i, k = i+1, k+1 {
-				res[i] = k
+			// number of elements; the comparison is false for NaN and infinities too
+			n := math.Floor(math.Abs(r-l)) + 1
+			if !(n <= math.MaxInt32) {
+				return nil, fmt.Errorf("range from %v to %v is too large", l, r)
+			}
+			step := 1.0
+			if r < l {
+				// a descending range, as in Twig: 3..1 is [3, 2, 1]
+				step = -1
+			}
+			res := make([]float64, int(n))
+			for i := range res {
+				res[i] = l + float64(i)*step
 			}
 			return res, nil
 		case parse.OpBinaryBitwiseAnd:
